@@ -550,11 +550,12 @@ impl World {
     /// or none at all (`Touch`: the update only re-states the fee collector address)
     pub fn write_cfg(&mut self, wr: &CfgWrite, cur: [bool; 3]) -> Result<(), String> {
         let (toggle, opts): (Option<[bool; 3]>, [Option<bool>; 3]) = match wr {
-            CfgWrite::Full(f) => (Some(*f), [Some(f[0]), Some(f[1]), Some(f[2])]),
+            CfgWrite::Full(f) | CfgWrite::FullWith(f) => (Some(*f), [Some(f[0]), Some(f[1]), Some(f[2])]),
             CfgWrite::Partial(o) => (Some([o[0].unwrap_or(cur[0]), o[1].unwrap_or(cur[1]), o[2].unwrap_or(cur[2])]), *o),
             CfgWrite::Touch => (None, [None, None, None]),
         };
-        let col = if matches!(wr, CfgWrite::Touch) { Some("collector".to_string()) } else { None };
+        let with = matches!(wr, CfgWrite::FullWith(_));
+        let col = if matches!(wr, CfgWrite::Touch) || with { Some("collector".to_string()) } else { None };
         let r = match self.kind {
             Kind::Cp | Kind::Stable => self.app.execute_contract(
                 self.admin.clone(),
@@ -563,7 +564,7 @@ impl World {
                     pair_addr: self.target.to_string(),
                     owner: None,
                     fee_collector_addr: col.clone(),
-                    pool_fees: None,
+                    pool_fees: if with { Some(pair::PoolFee { protocol_fee: fee(1), swap_fee: fee(2), burn_fee: fee(1) }) } else { None },
                     feature_toggle: toggle.map(|f| pair::FeatureToggle { deposits_enabled: f[0], withdrawals_enabled: f[1], swaps_enabled: f[2] }),
                 },
                 &[],
@@ -575,7 +576,7 @@ impl World {
                     trio_addr: self.target.to_string(),
                     owner: None,
                     fee_collector_addr: col.clone(),
-                    pool_fees: None,
+                    pool_fees: if with { Some(trio::PoolFee { protocol_fee: fee(1), swap_fee: fee(2), burn_fee: fee(1) }) } else { None },
                     feature_toggle: toggle.map(|f| trio::FeatureToggle { deposits_enabled: f[0], withdrawals_enabled: f[1], swaps_enabled: f[2] }),
                     amp_factor: None,
                 },
@@ -591,7 +592,7 @@ impl World {
                         withdraw_enabled: opts[1],
                         flash_loan_enabled: opts[2],
                         new_owner: None,
-                        new_vault_fees: None,
+                        new_vault_fees: if with { Some(VaultFee { protocol_fee: fee(1), flash_loan_fee: fee(2), burn_fee: fee(1) }) } else { None },
                         new_fee_collector_addr: col.clone(),
                     },
                 },
@@ -1040,6 +1041,8 @@ impl PathRun {
 #[derive(Clone, Debug, PartialEq)]
 pub enum CfgWrite {
     Full([bool; 3]),
+    /// all three switches TOGETHER WITH the other fields of the message (fees re-stated, fee collector)
+    FullWith([bool; 3]),
     Partial([Option<bool>; 3]),
     Touch,
 }
@@ -1186,9 +1189,14 @@ impl Engine for Toggles {
                 }
                 format!("{} {}", if r.is_ok() { "ok" } else { "err" }, Self::flags_str(got))
             }
-            Some("setp") | Some("touch") => {
+            Some("setp") | Some("touch") | Some("setw") => {
                 let cur = self.sets.last().copied().unwrap_or([true, true, true]);
-                let wr = if ws[0] == "touch" {
+                let wr = if ws[0] == "setw" {
+                    if ws.len() != 4 || ws[1..].iter().any(|t| *t != "0" && *t != "1") {
+                        return "bad-op".into();
+                    }
+                    CfgWrite::FullWith([ws[1] == "1", ws[2] == "1", ws[3] == "1"])
+                } else if ws[0] == "touch" {
                     if ws.len() != 1 {
                         return "bad-op".into();
                     }
@@ -1210,7 +1218,8 @@ impl Engine for Toggles {
                 };
                 let want = match &wr {
                     CfgWrite::Partial(o) => [o[0].unwrap_or(cur[0]), o[1].unwrap_or(cur[1]), o[2].unwrap_or(cur[2])],
-                    _ => cur,
+                    CfgWrite::FullWith(f) | CfgWrite::Full(f) => *f,
+                    CfgWrite::Touch => cur,
                 };
                 let Some(w) = self.world.as_mut() else { return "bad-op".into() };
                 let r = w.write_cfg(&wr, cur);
@@ -1323,6 +1332,9 @@ impl Engine for Toggles {
             // off (and, afterwards, only those they turn back on) and add an update naming no switch
             let mut plan = if round == 0 {
                 vec![format!("set {} {} {}", f[0] as u8, f[1] as u8, f[2] as u8)]
+            } else if round % 3 == 2 {
+                // the switches travel together with other fields of the same message
+                vec![format!("setw {} {} {}", f[0] as u8, f[1] as u8, f[2] as u8)]
             } else {
                 let o = |b: bool| if b { "-" } else { "0" };
                 let mut v = vec![format!("setp {} {} {}", o(f[0]), o(f[1]), o(f[2]))];
@@ -1336,6 +1348,8 @@ impl Engine for Toggles {
             }
             if round == 0 {
                 plan.push("set 1 1 1".into());
+            } else if round % 3 == 2 {
+                plan.push("setw 1 1 1".into());
             } else {
                 let o = |b: bool| if b { "-" } else { "1" };
                 plan.push(format!("setp {} {} {}", o(f[0]), o(f[1]), o(f[2])));
